@@ -429,8 +429,35 @@ def judge_tree(tree, q):
     return None
 
 
+WARNED = {}
+
+
+def _showwarning(message, category, filename, lineno, file=None, line=None):
+    WARNED.setdefault(threading.get_ident(), []).append(str(message))
+
+
 def ask(target, api, q):
+    """ask one query; a tree that only became complete because ContractionTree.from_path auto-completed an
+    incomplete path (it warns) is remembered in TL.autocompleted and judged a failure"""
+    import warnings
+    if warnings.showwarning is not _showwarning:
+        warnings.showwarning = _showwarning
+        warnings.simplefilter("always")
+    tid = threading.get_ident()
+    WARNED.pop(tid, None)
+    TL.autocompleted = None
+    try:
+        return _ask(target, api, q)
+    finally:
+        msgs = [m for m in WARNED.pop(tid, []) if "autocomplete" in m]
+        TL.autocompleted = msgs[0] if msgs else None
+
+
+def _ask(target, api, q):
     inputs, output, size_dict = POOL[q]
+    if api == "findpath":
+        from cotengra.interface import find_path
+        return "path", find_path(inputs, output, size_dict, optimize=target)
     if isinstance(target, str):
         if api == "path":
             path = ctg.array_contract_path(inputs, output, size_dict, optimize=target, canonicalize=False, cache=False)
@@ -444,6 +471,9 @@ def ask(target, api, q):
 
 
 def judge(kind, val, q):
+    if kind == "tree" and getattr(TL, "autocompleted", None):
+        return ("the tree was built from a path that does not contract all of the query's %d tensors and was only "
+                "completed by autocompletion (%s)" % (len(POOL[q][0]), TL.autocompleted[:80]))
     if kind == "path":
         n = len(POOL[q][0])
         if not valid_path(val, n):
